@@ -133,6 +133,8 @@ where
             // reduce lastk as long as k is exceeded: while lastk can increase by at most 1, it can
             // decrease more in one iteration.
             while self.ukkonen.D[col][self.lastk] > self.k {
+                #[cfg(feature = "verif-hooks")]
+                crate::verif::hit("ukkonen.lastk_drop");
                 self.lastk -= 1;
             }
 
